@@ -47,6 +47,9 @@ def rules(ctx):
                                                                P.func('_pcbo._special_constraints_eq_zero')])
     C02.recorded_copy_rules(ctx, E, P.func('PCBO.add_constraint_eq_zero'), 'R06.5', 'R06.5', 'PUBO')
     C02.record_not_shared(ctx, 'R06.5')
+    C02.record_balance(ctx, 'R06.5', P.func('PCBO.add_constraint_eq_zero'), 'eq')
+    C02.early_exits(ctx, 'R06.5', P.func('PCBO.add_constraint_eq_zero'))
+    C02.lam_zero_rule(ctx, 'R06.5', P.func('PCBO.add_constraint_eq_zero'))
     for name, fn in meths.items():
         selfn = R.self_name(fn)
         g = cfg_of(fn.node)
